@@ -17,7 +17,7 @@ Record api := mkapi {
 }.
 Definition api_new (c : dcfg) (bs : bytes) : api := mkapi (init_state bs) None false c bs.
 
-Inductive aop := ADecode | ANext | APeekHeader | APeekFileId | ADiscard | ACheckIntegrity | AReset (bs : bytes) (c : dcfg) | ASeekStart.
+Inductive aop := ADecode | ADecodeCancelled | ANext | APeekHeader | APeekFileId | ADiscard | ACheckIntegrity | AReset (bs : bytes) (c : dcfg) | ASeekStart.
 Inductive ares :=
 | RFit (f : fit) | RHeader (h : fheader) | RFileId (m : message) | RBool (b : bool)
 | RIntegrity (n : N) (e : option N) | RErr (e : N) | RUnit | RPanic | RFuel.
@@ -123,6 +123,9 @@ Definition api_step (a : api) (o : aop) : api * ares :=
     | Some e, ANext => (a, RBool false)
     | Some e, ACheckIntegrity => (a, RIntegrity 0 (Some e))
     | Some e, _ => (a, RErr e)
+    | None, ADecodeCancelled =>
+        (* DecodeWithContext under a context that is already done: the context's error is returned and kept (d.err) *)
+        (fail a E_Context, RErr E_Context)
     | None, ADecode =>
         match header_once c a with Err e => (once_failed a e, RErr e) | Panic _ | OutOfFuel => (a, RPanic) | Ok a1 => (fun a1 =>
           match decode_messages (S (length (s_rest (a_s a1)))) c (a_s a1) with
